@@ -285,10 +285,11 @@ def _make_stateful(setup, cat, callback):
     return getattr(mcmc, cls)(TARGETS[tid](cat), callback=callback, **kw())
 
 
-def _make_hybrid(setup, cat):
+def _hybrid_strategy(setup):
+    """(freshly constructed block samplers {parameter: sampler}, steps) of a HybridGibbs set-up.  Every call constructs
+    new sampler objects from the same constructor arguments (the 'twins' of the block samplers of another call)."""
     from cuqi.experimental import mcmc
     tid = setup.split("/")[1].split("-")[0]
-    target = TARGETS[tid](cat)
     if tid == "hier":
         strategy = {"x": mcmc.LinearRTO(maxit=4), "d": mcmc.Conjugate(), "l": mcmc.Conjugate()}
         steps = None
@@ -320,7 +321,15 @@ def _make_hybrid(setup, cat):
                     "s": mcmc.PCN(initial_point=np.array([3.0]), scale=0.5),
                     "x": mcmc.MALA(initial_point=np.array([0.0]), scale=0.05)}
         steps = {"d": 2, "x": 1}
-    return mcmc.HybridGibbs(target, strategy, steps)
+    return strategy, steps
+
+
+def _make_hybrid(setup, cat, strategy=None):
+    from cuqi.experimental import mcmc
+    tid = setup.split("/")[1].split("-")[0]
+    target = TARGETS[tid](cat)
+    made, steps = _hybrid_strategy(setup)
+    return mcmc.HybridGibbs(target, made if strategy is None else strategy, steps)
 
 
 # ----------------------------------------------------------------------------------------
@@ -427,7 +436,7 @@ class Log:
 
 
 class Obs:
-    __slots__ = ("chain", "state", "segs", "error", "reads", "transitions", "ops", "refused", "rng", "raw")
+    __slots__ = ("chain", "state", "segs", "error", "reads", "transitions", "ops", "refused", "rng", "raw", "current")
 
     def __init__(self):
         self.chain = None      # chain recorded by the final sampler object (list of vectors)
@@ -440,6 +449,7 @@ class Obs:
         self.refused = 0       # reads of an empty chain that the implementation refused (allowed)
         self.rng = None        # state of the global numpy generator after the last operation
         self.raw = None        # the object returned by the final get_samples() / sample() call
+        self.current = None    # HybridGibbs: the state the sampler is in after the last operation
 
 
 def _read(s, made, o):
@@ -557,14 +567,32 @@ def run_hybrid(setup, cat, k, seed, ops):
                 s.sample(0)
             else:
                 got = s.get_samples()
-                o.reads.append((got, {p: np.array(got[p].samples, copy=True) for p in s.par_names}))
+                o.reads.append((got, {p: np.array(got[p].samples, copy=True) for p in s.par_names}, _current_of(s)))
         o.rng = _rng_state()
         stage = "get_samples"
         got = s.get_samples()
         o.chain = {p: _chain_of(got[p]) for p in s.par_names}
+        o.state = _current_of(s)
     except Exception as e:
         o.error = (stage, "%s: %s" % (type(e).__name__, str(e)[:200]))
     return o
+
+
+def _current_of(gibbs):
+    """The state a HybridGibbs sampler is in, as plain data {parameter: vector}."""
+    return {p: np.array(np.asarray(gibbs.current_samples[p], dtype=float), copy=True).ravel() for p in gibbs.par_names}
+
+
+def _last_state_bad(chains, current, made):
+    """The most recently recorded state of every parameter is the state the sampler is in (chains as handed out by
+    get_samples(): {parameter: Samples-like array (dim, Ns)} or {parameter: list of vectors})."""
+    if made <= 0:
+        return None
+    for p in sorted(current):
+        ch = chains[p] if isinstance(chains[p], list) else _chain_of(chains[p])
+        if len(ch) == made and not _same(ch[-1], current[p]):
+            return "last recorded state of %r is %s, the sampler is in state %s" % (p, ch[-1], current[p])
+    return None
 
 
 # ----------------------------------------------------------------------------------------
@@ -830,12 +858,107 @@ def eval_stateful(cell, res):
                 elif len(chain) == total and not all(_same(v, chain[i]) for (v, _), i in zip(log.entries, range(total))):
                     res.fail("C14|%s|mixed-calls|callback-state" % loop_comp, "%s: a state handed to the call-back is not the chain "
                              "entry at its index (set-up %s)" % (desc, setup))
+        # ---- re-initialising returns the sampler to its constructed configuration - after EVERY kind of use of the object:
+        # the re-initialised object on the reference stream == the freshly constructed sampler of the reference run
+        refail = {}
+        for use in REINIT_USES:
+            o = run_after_use(setup, cat, k, seed, maxn, use, tmpdir)
+            res.transitions += o.ops
+            res.traces += 1
+            res.evaluations += 1
+            res.state(("reinitialize-after", use, k))
+            res.count("reinitialize-after:" + use)
+            for facet, msg in _judge_stateful(o, refs_[maxn], k, maxn).items():
+                refail.setdefault(facet, []).append((use, msg))
+        for facet, lst in refail.items():       # one signature per facet: the first use kind (in REINIT_USES order) names it
+            use, msg = lst[0]
+            res.fail("C14|%s|reinitialize-after-use|%s,use=%s" % (loop_comp if facet in LOOP_FACETS else comp, facet, use),
+                     "a sampler object used by %s and then re-initialised does not behave like a freshly constructed one in "
+                     "warmup(%d);sample(%d) on the same stream: %s (set-up %s, seed %d; uses failing this facet: %s)"
+                     % (use, k, maxn, msg, setup, seed, [u for u, _ in lst]), focus={"use": use})
         _attribute(res, comp, fails, extra=" (set-up %s, warm-up %d, seed %d)" % (setup, k, seed), loop_comp=loop_comp)
         res.sample = {"setup": setup, "k": k, "reference_chain_first_component": [float(v[0]) for v in full],
                       "histories": res.traces, "failing_histories": len(fails),
                       "state_keys": sorted(refs_[maxn].state or {})}
     finally:
         shutil.rmtree(tmpdir, ignore_errors=True)
+
+
+# every kind of use a stand-alone sampler object can have had before reinitialize() is called on it
+REINIT_USES = ("initialize", "warmup", "sample", "sample+warmup", "set_state", "set_state+sample", "load_checkpoint",
+               "load_checkpoint+sample", "reinitialize+sample")
+
+
+def run_after_use(setup, cat, k, seed, n, use, tmpdir):
+    """One sampler object is used (`use`, on a stream of its own), re-initialised, and then makes the run
+    warmup(k);sample(n) on the stream of the reference run (= a freshly constructed twin on the same stream)."""
+    o = Obs()
+    log = Log()
+    stage = "construct"
+    try:
+        s = _make_stateful(setup, cat, log)
+        o.segs.append((0, log))
+        stage = "use:" + use
+        if use.startswith(("set_state", "load_checkpoint")):
+            donor = _make_stateful(setup, cat, None)        # another run of the same configuration supplies the payload
+            _seed_streams(seed + 2)
+            donor.warmup(2)
+            donor.sample(2)
+            o.transitions += 4
+            _seed_streams(seed + 1)
+            if use.startswith("set_state"):
+                payload = donor.get_state()
+                if not SET_STATE_ON_UNINITIALISED:
+                    s.initialize()
+                s.set_state(payload)
+            else:
+                path = os.path.join(tmpdir, "use.pickle")
+                donor.save_checkpoint(path)
+                s.load_checkpoint(path)
+                os.remove(path)
+            if use.endswith("+sample"):
+                s.sample(1)
+                o.transitions += 1
+        else:
+            _seed_streams(seed + 1)
+            if use == "initialize":
+                s.initialize()
+            elif use == "warmup":
+                s.warmup(3)
+            elif use == "sample":
+                s.sample(2)
+            elif use == "sample+warmup":
+                s.sample(1)
+                s.warmup(2)
+            elif use == "reinitialize+sample":
+                s.warmup(2)
+                s.reinitialize()
+                s.sample(1)
+            o.transitions += 3
+        o.ops += 1
+        stage = "reinitialize"
+        _seed_streams(seed)
+        s.reinitialize()
+        log.entries.clear()
+        o.ops += 1
+        if k > 0:
+            stage = "warmup"
+            s.warmup(k)
+            o.ops += 1
+        if n > 0:
+            stage = "sample"
+            s.sample(n)
+            o.ops += 1
+        o.transitions += k + n
+        o.rng = _rng_state()
+        stage = "get_samples"
+        got = _read(s, k + n, o)
+        o.chain = [] if got is None else _chain_of(got)
+        st = s.get_state()["state"]
+        o.state = {key: _val(v) for key, v in st.items()}
+    except Exception as e:
+        o.error = (stage, "%s: %s" % (type(e).__name__, str(e)[:200]))
+    return o
 
 
 def _run_ref(setup, cat, k, seed, n, tmpdir):
@@ -896,6 +1019,11 @@ def eval_hybrid(cell, res):
         for p, ch in r.chain.items():
             if len(ch) != k + n:
                 res.fail("C14|%s|sample|length" % comp, "chain of %r has %d entries after %d transitions" % (p, len(ch), k + n))
+        msg = _last_state_bad(r.chain, r.current, k + n)
+        res.evaluations += 1
+        if msg:
+            res.fail("C14|%s|sample|last-state" % comp, "uninterrupted run warmup(%d);sample(%d): %s (set-up %s, seed %d)"
+                     % (k, n, msg, setup, seed))
     full = refs_[maxn].chain
     res.outcomes.add("%s:k%d:moves=%s" % (setup, k, "/".join(_moves(full[p]) for p in sorted(full))))
     res.outcomes.add("%s:blocks=%s" % (setup, "+".join(refs_[maxn].state)))
@@ -923,16 +1051,105 @@ def eval_hybrid(cell, res):
                 if not _eq_chain(o.chain[p], ref.chain[p]):
                     bad["chain"] = "chain of %r differs from the uninterrupted run warmup(%d);sample(%d)" % (p, k, n)
                     break
-            for got, copy in o.reads:
+            for got, copy, cur in o.reads:
                 if any(not _same(np.asarray(got[p].samples, dtype=float), copy[p]) for p in copy):
                     bad["stored-entry-altered"] = "a chain returned by get_samples() changed after it was returned"
+                msg = _last_state_bad(copy, cur, len(_chain_of(copy[sorted(copy)[0]])))
+                if msg:
+                    bad.setdefault("last-state", "get_samples() in mid-run: " + msg)
+            msg = None if "length" in bad else _last_state_bad(o.chain, o.state, k + n)
+            if msg:
+                bad.setdefault("last-state", msg)
             if not bad and o.rng != ref.rng:
                 bad["stream"] = _rng_diff(o.rng, ref.rng)
         if bad:
             fails[h] = bad
+    # ---- re-initialising returns the sampler to its constructed configuration - also after use as a Gibbs block
+    blockbad = {}
+    for kg, ng in sorted({(k, 1), (k, maxn), (k + 1, 0)}):
+        for cls, f in probe_blocks(setup, cat, kg, ng, seed, res).items():
+            blockbad.setdefault(cls, f)
+    for cls, (facet, msg) in sorted(blockbad.items()):
+        res.fail("C14|cuqi.experimental.mcmc.%s|reinitialize-after-gibbs-block|%s" % (cls, facet),
+                 "%s: the re-initialised sampler object does not behave like a freshly constructed sampler of the same "
+                 "configuration (set-up %s, seed %d)" % (msg, setup, seed), focus={"block": cls})
     _attribute(res, comp, fails, extra=" (set-up %s, warm-up %d, seed %d)" % (setup, k, seed))
     res.sample = {"setup": setup, "k": k, "histories": res.traces, "failing_histories": len(fails),
                   "reference": {p: [float(v[0]) for v in full[p]] for p in full}}
+
+
+BLOCK_RUN = (2, 2)      # stand-alone run warmup(2);sample(2) of a block sampler object after the Gibbs run
+
+
+def _standalone(s, seed, reinit):
+    """(chain, state dictionary, generator position) of warmup;sample of one sampler object on the stream `seed`;
+    the object is re-initialised first (reinit) or freshly constructed (initialised lazily by warmup)."""
+    _seed_streams(seed)
+    if reinit:
+        s.reinitialize()
+    s.warmup(BLOCK_RUN[0])
+    s.sample(BLOCK_RUN[1])
+    return (_chain_of(s.get_samples()), {key: _val(v) for key, v in s.get_state()["state"].items()}, _rng_state())
+
+
+def probe_blocks(setup, cat, kg, ng, seed, res):
+    """The block sampler objects handed to HybridGibbs remain the user's: after the Gibbs run warmup(kg);sample(ng) each
+    of them is re-initialised and run stand-alone (on its last conditional target) against a freshly constructed twin
+    (same constructor arguments, same target) on the same stream.  -> {block class: (facet, message)}"""
+    bad = {}
+    try:
+        strategy, _ = _hybrid_strategy(setup)
+        g = _make_hybrid(setup, cat, strategy)
+        _seed_streams(seed + 1)
+        if kg:
+            g.warmup(kg)
+        if ng:
+            g.sample(ng)
+    except Exception:       # the Gibbs run itself is judged by the histories
+        res.refused += 1
+        return bad
+    res.transitions += 2
+    for p in sorted(strategy):
+        b = strategy[p]
+        cls = type(b).__name__
+        res.state(("reinitialize-after-gibbs-block", cls, kg, ng))
+        res.count("block-reinitialized:" + cls)
+        twin = _hybrid_strategy(setup)[0][p]
+        try:
+            twin.target = b.target
+            want = _standalone(twin, seed, False)
+        except Exception as e:          # this sampler class does not run stand-alone on the conditional: nothing to compare
+            res.refused += 1
+            res.outcomes.add("%s:block-%s-standalone-refused:%s" % (setup, cls, type(e).__name__))
+            continue
+        res.transitions += 2 * sum(BLOCK_RUN)
+        res.traces += 1
+        res.evaluations += 1
+        where = "block %r (%s) after the Gibbs run warmup(%d);sample(%d)" % (p, cls, kg, ng)
+        try:
+            got = _standalone(b, seed, True)
+        except Exception as e:
+            bad.setdefault(cls, ("raises", "%s: reinitialize();warmup(%d);sample(%d) raised %s: %s" % (
+                where, BLOCK_RUN[0], BLOCK_RUN[1], type(e).__name__, str(e)[:160])))
+            continue
+        if len(got[0]) != len(want[0]):
+            f = ("length", "re-initialised object recorded %d states, the twin %d" % (len(got[0]), len(want[0])))
+        elif not _eq_chain(got[0], want[0]):
+            d = next(i for i, (x, y) in enumerate(zip(got[0], want[0])) if not _same(x, y))
+            f = ("chain", "state %d of the re-initialised object is %s, of the freshly constructed twin %s" % (d, got[0][d], want[0][d]))
+        elif sorted(got[1]) != sorted(want[1]):
+            f = ("state-keys", "state dictionary keys %s vs %s" % (sorted(got[1]), sorted(want[1])))
+        else:
+            key = next((key for key in sorted(want[1]) if not _same(got[1][key], want[1][key])), None)
+            if key is not None:
+                f = ("state:" + key, "state dictionary entry %r is %r, the twin has %r" % (key, got[1][key], want[1][key]))
+            elif got[2] != want[2]:
+                f = ("stream", _rng_diff(got[2], want[2]))
+            else:
+                f = None
+        if f is not None:
+            bad.setdefault(cls, (f[0], "%s: %s" % (where, f[1])))
+    return bad
 
 
 def _hybrid_ref(setup, cat, k, seed, n):
@@ -955,6 +1172,7 @@ def _hybrid_ref(setup, cat, k, seed, n):
         o.raw = got
         o.chain = {p: _chain_of(got[p]) for p in s.par_names}
         o.state = sorted({type(b).__name__ for b in s.samplers.values()})      # block sampler classes in use
+        o.current = _current_of(s)
     except Exception as e:
         o.error = (stage, "%s: %s" % (type(e).__name__, str(e)[:200]))
     return o
@@ -980,7 +1198,7 @@ def _legacy_setups():
     }
 
 
-SAMPLE_GRID = [(N, Nb) for N in (1, 2, 3, 4) for Nb in (0, 1, 2, 3)]
+SAMPLE_GRID = [(N, Nb) for N in (1, 2, 3, 4, 5) for Nb in (0, 1, 2, 3)]      # N in 1..dim+2 for the dimensions 2 and 3
 ADAPT_GRID = [(N, Nb) for N in (10, 12) for Nb in (0, 2, 5)]
 LONG_GRID = [(150, 60), (205, 0)]
 
@@ -1181,12 +1399,33 @@ def eval_gibbs(cell, res):
             seen.add(sig)
             res.fail(sig, msg + " (set-up %s, seed %d)" % (setup, seed))
 
+    g0 = _make_gibbs(setup, cat)
+    s_dims = {p: g0.target.get_density(p).dim for p in g0.par_names}
     for Nb in (0, 1, 2):
         refs_ = {}
-        for n in range(1, maxn + 1):
+        for n in range(1, maxn + 2):
             refs_[n] = run_gibbs(setup, cat, seed, (n,), Nb)
             res.transitions += refs_[n].ops
             res.state(("gibbs", Nb, n))
+        # one chain, in order, for every length N in 1..dim+2 (dim <= 2 here): the run of N states is a prefix of the run
+        # of N+1 states on the same stream, has one column per state, and later calls continue from its last column
+        for n in range(1, maxn + 1):
+            a, b = refs_[n], refs_.get(n + 1)
+            if a.error is not None:
+                continue
+            res.evaluations += 1
+            for p in sorted(a.chain):
+                arr = np.asarray(a.raw[p].samples)
+                dim_p = int(s_dims[p])
+                if arr.ndim == 1 and dim_p == 1:
+                    arr = arr[None, :]
+                res.state(("record", dim_p, n))
+                if arr.shape != (dim_p, n):
+                    fail("sample", "recorded-shape,%s" % _rel(n, dim_p), "sample(%d, %d): Samples array of %r has shape %s for "
+                         "%d states of dimension %d" % (n, Nb, p, arr.shape, n, dim_p))
+                elif b is not None and b.error is None and not _eq_chain(a.chain[p], b.chain[p][:n]):
+                    fail("sample", "recorded-states,%s" % _rel(n, dim_p), "sample(%d, %d): chain of %r (dimension %d) is not "
+                         "the first %d states of sample(%d, %d) on the same stream" % (n, Nb, p, dim_p, n, n + 1, Nb))
         for calls in _compositions(maxn):
             n = sum(calls)
             o = run_gibbs(setup, cat, seed, calls, Nb)
@@ -1231,6 +1470,175 @@ def eval_gibbs(cell, res):
 
 
 # ----------------------------------------------------------------------------------------
+# chain length x block dimension product: get_samples() against the states recorded by the harness at production
+# ----------------------------------------------------------------------------------------
+RECORD_WARMUPS = (0, 1, 2)
+
+
+def _rel(N, dim):
+    return "N<dim" if N < dim else ("N=dim" if N == dim else "N>dim")
+
+
+def _record_bad(samples_obj, dim, rec):
+    """samples_obj: Samples handed out when len(rec) states had been recorded; rec: the states copied by the harness when
+    they were produced (None = not observable).  -> (facet, message) or None"""
+    T = len(rec)
+    arr = np.asarray(samples_obj.samples, dtype=float)
+    if arr.ndim == 1 and dim == 1:      # a chain of scalar states may be handed out as a flat array
+        arr = arr[None, :]
+    if arr.shape != (dim, T):
+        return "shape", "Samples array has shape %s for %d recorded states of dimension %d" % (arr.shape, T, dim)
+    for j in range(T):
+        if rec[j] is not None and not _same(np.array(arr[:, j]), rec[j]):
+            return "states", "entry %d of the chain of %d states is %s, the state produced by transition %d was %s" % (
+                j, T, arr[:, j], j, rec[j])
+    return None
+
+
+def eval_record_hybrid(cell, res):
+    """HybridGibbs: for every total number of recorded states T in 1..max(block dim)+2 (so that T == dim, dim-1, dim+1
+    occur for every block dimension present), reached by warmup(kw) + single sample(1) calls and by one call sample(T):
+    get_samples() lists, per parameter, exactly the states `current_samples` showed after each transition."""
+    setup, cat, seed = cell["setup"], cell["cat"], cell["seed"]
+    comp = "cuqi.experimental.mcmc.HybridGibbs"
+    seen = set()
+
+    def fail(op, facet, N, dim, msg):
+        sig = "C14|%s|%s|recorded-%s,%s" % (comp, op, facet, _rel(N, dim))
+        if sig not in seen:
+            seen.add(sig)
+            res.fail(sig, msg + " (set-up %s, seed %d)" % (setup, seed), focus={"N": N, "dim": dim})
+
+    def compare(g, rec, op, how):
+        T = len(next(iter(rec.values())))
+        got = g.get_samples()
+        res.evaluations += 1
+        for p_ in g.par_names:
+            res.state(("record", dims[p_], T))
+            res.count("record:%s" % _rel(T, dims[p_]))
+            bad = _record_bad(got[p_], dims[p_], rec[p_])
+            if bad:
+                fail(op, bad[0], T, dims[p_], "%s: chain of %r (dimension %d): %s" % (how, p_, dims[p_], bad[1]))
+
+    try:
+        g = _make_hybrid(setup, cat)
+        dims = {p_: int(g.target.get_density(p_).dim) for p_ in g.par_names}
+    except Exception as e:
+        res.refused += 1
+        res.nontrivial = False
+        res.outcomes.add("%s:refused:%s" % (setup, type(e).__name__))
+        return
+    nmax = max(dims.values()) + 2
+    res.outcomes.add("%s:dims=%s" % (setup, sorted(set(dims.values()))))
+    stepwise = None
+    for kw in RECORD_WARMUPS:
+        how = "warmup(%d) then single sample(1) calls" % kw
+        try:
+            g = _make_hybrid(setup, cat)
+            _seed_streams(seed)
+            rec = {p_: [] for p_ in g.par_names}
+            if kw:
+                g.warmup(kw)
+                res.transitions += 1
+                cur = _current_of(g)
+                for p_ in rec:
+                    rec[p_] = [None] * (kw - 1) + [cur[p_]]
+                compare(g, rec, "get_samples", how)
+            for _ in range(nmax - kw):
+                g.sample(1)
+                res.transitions += 1
+                cur = _current_of(g)
+                for p_ in rec:
+                    rec[p_].append(cur[p_])
+                compare(g, rec, "get_samples", how)
+            res.traces += 1
+        except Exception as e:
+            fail("get_samples", "raises", 0, 1, "%s raised %s: %s" % (how, type(e).__name__, str(e)[:160]))
+            continue
+        if kw == 0:
+            stepwise = rec
+    if stepwise is None:
+        res.nontrivial = False
+        return
+    for T in range(1, nmax + 1):            # one call sample(T): the same chain (continuity), so the same record
+        how = "one call sample(%d)" % T
+        try:
+            g = _make_hybrid(setup, cat)
+            _seed_streams(seed)
+            g.sample(T)
+            res.transitions += 1
+            rec = {p_: [v for v in stepwise[p_][:T - 1]] + [_current_of(g)[p_]] for p_ in stepwise}
+            compare(g, rec, "sample", how)
+            res.traces += 1
+        except Exception as e:
+            fail("sample", "raises", 0, 1, "%s raised %s: %s" % (how, type(e).__name__, str(e)[:160]))
+    moved = any(len({tuple(np.round(v, 12)) for v in stepwise[p_]}) > 1 for p_ in stepwise)
+    if not moved:
+        res.nontrivial = False
+    res.outcomes.add("%s:record-moves=%s" % (setup, "/".join(_moves(stepwise[p_]) for p_ in sorted(stepwise))))
+    res.sample = {"setup": setup, "dims": dims, "recorded_first_components": {p_: [float(v[0]) for v in stepwise[p_]]
+                                                                              for p_ in stepwise}}
+
+
+def eval_record_stateful(cell, res):
+    """Single sampler: for every T in 1..dim+2 and every warm-up kw in RECORD_WARMUPS (kw <= T): after warmup(kw);
+    sample(T-kw) get_samples() has shape (dim, T), lists the states handed to the call-back in order, and ends with the
+    sampler's current point."""
+    setup, cat, seed = cell["setup"], cell["cat"], cell["seed"]
+    cls = _stateful_setups()[setup][0]
+    comp = "cuqi.experimental.mcmc." + cls
+    seen = set()
+    moved = False
+    try:
+        dim = int(_make_stateful(setup, cat, None).target.dim)
+    except Exception as e:
+        res.refused += 1
+        res.nontrivial = False
+        res.outcomes.add("%s:refused:%s" % (setup, type(e).__name__))
+        return
+    res.outcomes.add("%s:dim=%d" % (setup, dim))
+    for T in range(1, dim + 3):
+        for kw in RECORD_WARMUPS:
+            if kw > T:
+                continue
+            how = "warmup(%d);sample(%d)" % (kw, T - kw)
+            res.state(("record", dim, T, kw))
+            res.count("record:%s" % _rel(T, dim))
+            log = Log()
+            try:
+                sm = _make_stateful(setup, cat, log)
+                _seed_streams(seed)
+                if kw:
+                    sm.warmup(kw)
+                if T - kw:
+                    sm.sample(T - kw)
+                got = sm.get_samples()
+                cur = np.array(np.asarray(sm.current_point, dtype=float), copy=True).ravel()
+            except Exception as e:
+                bad = ("raises", "raised %s: %s" % (type(e).__name__, str(e)[:160]))
+            else:
+                res.transitions += 2
+                res.traces += 1
+                res.evaluations += 1
+                rec = [v for v, _ in log.entries]
+                moved = moved or len({tuple(np.round(v, 12)) for v in rec}) > 1
+                if len(rec) != T:
+                    bad = ("callback-count", "call-back invoked %d times for %d transitions" % (len(rec), T))
+                else:
+                    bad = _record_bad(got, dim, rec)
+                    if bad is None and not _same(rec[-1], cur):
+                        bad = ("last-state", "last recorded state is %s, current_point is %s" % (rec[-1], cur))
+            if bad:
+                sig = "C14|%s|get_samples|recorded-%s,%s" % (comp, bad[0], _rel(T, dim))
+                if sig not in seen:
+                    seen.add(sig)
+                    res.fail(sig, "%s: chain of dimension %d: %s (set-up %s, seed %d)" % (how, dim, bad[1], setup, seed),
+                             focus={"N": T, "dim": dim, "warmup": kw})
+    if not moved:
+        res.nontrivial = False
+
+
+# ----------------------------------------------------------------------------------------
 # cells
 # ----------------------------------------------------------------------------------------
 SEEDS = [11, 23, 37]
@@ -1264,10 +1672,18 @@ def cells(tier, seed):
     for setup in LEGACY_GIBBS:
         for sd in seeds:
             out.append({"iface": "gibbs", "setup": setup, "seed": sd + int(seed), "cat": cat, "maxn": maxn})
+    # chain length x dimension product (recorded chain against the states seen at production)
+    for setup in GIBBS_SETUPS:
+        for sd in seeds:
+            out.append({"iface": "record-hybridgibbs", "setup": setup, "seed": sd + int(seed), "cat": cat})
+    for setup in _stateful_setups():
+        for sd in seeds:
+            out.append({"iface": "record-stateful", "setup": setup, "seed": sd + int(seed), "cat": cat})
     return out
 
 
 def eval_cell(cell):
     res = CellResult(cell)
-    {"stateful": eval_stateful, "hybridgibbs": eval_hybrid, "stateless": eval_legacy, "gibbs": eval_gibbs}[cell["iface"]](cell, res)
+    {"stateful": eval_stateful, "hybridgibbs": eval_hybrid, "stateless": eval_legacy, "gibbs": eval_gibbs,
+     "record-hybridgibbs": eval_record_hybrid, "record-stateful": eval_record_stateful}[cell["iface"]](cell, res)
     return res
